@@ -120,19 +120,21 @@ class GetService(DPWSPortTypeBase):
         """For simplification reason this implementation returns either all descriptors or none."""
         return_all = len(requested_handles) == 0  # if we have handles, we need to check them
         dummy_response = self._sdc_definitions.data_model.msg_types.GetMdDescriptionResponse()
-        dummy_response.set_mdib_version_group(mdib.mdib_version_group)
-        response = self._sdc_device.msg_factory.mk_reply_soap_message(request_data, dummy_response)
-        # now add to payload_element
-        response_node = response.p_msg.payload_element
-        for handle in requested_handles:
-            # if at least one requested handle is valid, return all.
-            if mdib.descriptions.handle.get_one(handle, allow_none=True) is not None:
-                return_all = True
-                break
-        if return_all:
-            md_description_node, mdib_version_group = mdib.reconstruct_md_description()
-            # append all children of md_description_node to msg_names.MdDescription node in response
-            response_node[0].extend(md_description_node[:])
+        # version group, handle check and description must stem from the same mdib version
+        with mdib.mdib_lock:
+            dummy_response.set_mdib_version_group(mdib.mdib_version_group)
+            response = self._sdc_device.msg_factory.mk_reply_soap_message(request_data, dummy_response)
+            # now add to payload_element
+            response_node = response.p_msg.payload_element
+            for handle in requested_handles:
+                # if at least one requested handle is valid, return all.
+                if mdib.descriptions.handle.get_one(handle, allow_none=True) is not None:
+                    return_all = True
+                    break
+            if return_all:
+                md_description_node, mdib_version_group = mdib.reconstruct_md_description()
+                # append all children of md_description_node to msg_names.MdDescription node in response
+                response_node[0].extend(md_description_node[:])
         return response
 
     def add_wsdl_port_type(self, parent_node):
